@@ -117,7 +117,7 @@ def gen_group_keys(rng, n, levels, prefix="G", maxruns=4, reuse_inner=True):
 
 
 def gen_df(rng, n, ncols, *, convert=True, group_cols=0, subline_cols=0, groupby_cols=0,
-           row_base=0, maxruns=4, key=True, groupby_nulls=False, long_p=0.0, divider_p=0.2):
+           row_base=0, maxruns=4, key=True, groupby_nulls=False, long_p=0.0, divider_p=0.2, blank_p=0.1):
     """-> (dfspec, meta).  Grouping columns are placed at random positions; one
     designated key column holds the d<row>c<col> tags."""
     total = ncols
@@ -167,6 +167,10 @@ def gen_df(rng, n, ncols, *, convert=True, group_cols=0, subline_cols=0, groupby
             lvl = gb.index(j)
             o = subline_cols + group_cols
             vs = [val("gb", lvl, k[o + lvl], k[o + lvl - 1] if lvl else None) for k in keys]
+            if vs and rng.random() < 0.3:
+                # null is a group value of its own: one label of this level becomes null
+                target = rng.choice(sorted(set(vs)))
+                vs = [None if v == target else v for v in vs]
             cols.append({"name": name, "dtype": "str", "values": vs})
         elif j == keypos:
             cols.append({"name": name, "dtype": "str",
@@ -179,6 +183,14 @@ def gen_df(rng, n, ncols, *, convert=True, group_cols=0, subline_cols=0, groupby
         col = cols[rng.choice(pg)]
         target = rng.choice(sorted(set(col["values"])))
         col["values"] = ["-----" if v == target else v for v in col["values"]]
+    # ... or have a blank value (an empty heading row is rendered for it)
+    if pg and n and rng.random() < blank_p:
+        col = cols[rng.choice(pg)]
+        cands = sorted(set(col["values"]) - {"-----"})
+        if cands:
+            target = rng.choice(cands)
+            blank = rng.choice(["", " "])
+            col["values"] = [blank if v == target else v for v in col["values"]]
     meta = {"key": keypos, "page_by": [f"N{j}" for j in pg], "subline_by": [f"N{j}" for j in sb],
             "group_by": [f"N{j}" for j in gb], "row_base": row_base, "nrows": n}
     return {"cols": cols}, meta
@@ -373,7 +385,7 @@ def gen_table_spec(rng, *, nrows=(0, 30), ncols=(1, 6), strategy=None, header=No
     n = rng.randint(*nrows) if isinstance(nrows, tuple) else nrows
     nc = rng.randint(*ncols) if isinstance(ncols, tuple) else ncols
     strategy = strategy or rng.choice(["plain", "plain", "page_by", "page_by_new", "page_by_new_first",
-                                       "subline", "subline_page_by", "nested"])
+                                       "subline", "subline_page_by", "subline_page_by", "nested"])
     pg = sb = 0
     body: dict = {}
     if strategy in ("page_by", "page_by_new", "page_by_new_first"):
@@ -402,6 +414,11 @@ def gen_table_spec(rng, *, nrows=(0, 30), ncols=(1, 6), strategy=None, header=No
                 body["pageby_row"] = "first_row"
     if sb:
         body["subline_by"] = meta["subline_by"]
+        if pg and rng.random() < 0.4:
+            # subline_by + page_by + new_page (page_by column kept or shown as first row)
+            body["new_page"] = True
+            if rng.random() < 0.5:
+                body["pageby_row"] = "first_row"
     if gb:
         body["group_by"] = meta["group_by"]
     if rng.random() < 0.3:
